@@ -551,6 +551,3 @@ func wsconcRun(script []string, w *bufio.Writer) {
 	}
 }
 
-func wsconcGen(r *rng, maxops int, w *bufio.Writer) {}
-
-func wsconcEnum(args []string, w *bufio.Writer) {}
